@@ -258,6 +258,7 @@ def region_for(tx, ref, step, root_live):
         if any(x is None for x in es):
             return None
         s0, s1, fl, ll = min(x[0] for x in es), max(x[1] for x in es), min(x[2] for x in es), max(x[3] for x in es)
+        step['_last_type'] = type(els[-1]).__name__
     elif op in ('insert', 'view_insert'):
         return gap_region(tx, parent, lst, idx, field, ext)
     elif op in ('append', 'view_append', 'extend'):
@@ -407,7 +408,7 @@ def judge(ctx, tx, after, region, step, case):
     is_insert = step['op'] in ('insert', 'view_insert', 'append', 'view_append', 'extend', 'prepend', 'prextend') or e0 == e1
     p0, p1 = step.get('_extent_pars') or (e0, e1)
     fl_ll = step.get('_lines')
-    block_stmt = step['kind'] in ('stmt', 'handler', 'case') and step['ttype'] in ('FunctionDef', 'AsyncFunctionDef', 'ClassDef', 'If', 'For', 'AsyncFor', 'While', 'With', 'AsyncWith', 'Try', 'TryStar', 'Match', 'ExceptHandler', 'match_case')
+    block_stmt = step['kind'] in ('stmt', 'handler', 'case') and (step.get('_last_type') or step['ttype']) in ('FunctionDef', 'AsyncFunctionDef', 'ClassDef', 'If', 'For', 'AsyncFor', 'While', 'With', 'AsyncWith', 'Try', 'TryStar', 'Match', 'ExceptHandler', 'match_case')
 
     ext_strings = {bs[i] for i, t in enumerate(btoks) if e0 <= tx.tok_off(t)[0] < e1}
 
